@@ -207,6 +207,8 @@ func (w *Worker) runPath(prefix []Decision) {
 	r.objVC = map[interface{}]VC{}
 	r.watch = map[*Value]*watchCell{}
 	r.raceSeen = map[string]bool{}
+	r.backings = map[*Value]*Backing{}
+	r.bufBacking = map[*Value]*Backing{}
 	w.solver.Push()
 	r.execute(ex.Entry)
 	if r.outcome == OutOK && ex.WitnessEvery > 0 && ex.wantWitness() {
